@@ -247,6 +247,10 @@ def run_property(prop, tier, seed):
         if unit is not None:
             for c in scan_cheats(unit.text):
                 assumptions.append('[%s] unchecked construct, %s' % (unit_name, c))
+    for scan in reg.get('scans', []):
+        if scan == 'stdout':
+            obs.append(stdout_scan(prop))
+            cmds.append('syntactic scan of the core modules for print!/println!/stdout (lib/driver.py stdout_scan)')
     if reg.get('kani'):
         from . import kani_run
         for group in reg['kani']:
@@ -308,3 +312,60 @@ def replay(prop, path):
     except OSError as e:
         print('cannot read replay file: %s' % e)
         return 2
+
+
+# ---------------------------------------------------------------------------------------------------------------------
+# C18 frame scan: no function of the core other than SerialComms::set_control may touch the host's standard output
+CORE_DIRS = ['src/cache', 'src/decoder', 'src/devices', 'src/emitter', 'src/interpreter']
+CORE_FILES = ['src/cpu.rs', 'src/cart.rs', 'src/emulator.rs', 'src/mem.rs', 'src/timing.rs']
+
+
+def stdout_scan(prop):
+    """Syntactic frame condition for C18: every `print!`/`println!`/`stdout` occurrence in the core modules (code compiled
+    in the default feature set, tests excluded) must be inside SerialComms::set_control."""
+    import glob
+    from . import vx
+    repo = os.environ.get('VERIF_REPO', '/repo')
+    files = [os.path.join(repo, f) for f in CORE_FILES]
+    for d in CORE_DIRS:
+        files += sorted(glob.glob(os.path.join(repo, d, '**', '*.rs'), recursive=True))
+    o = Ob('scan:stdout-frame', 'syntactic scan', 'frame-scan')
+    hits = []
+    n_files = 0
+    for f in files:
+        if not os.path.exists(f) or f.endswith('windows.rs'):
+            continue
+        n_files += 1
+        src = open(f).read()
+        # drop #[cfg(test)] modules and blocks guarded by the dump_disassembly debugging feature
+        try:
+            t = src
+            m = vx.mask_noncode(t)
+            tm = re.search(r'#\[cfg\(test\)\]\s*mod\s+\w+\s*\{', m)
+            if tm:
+                close = vx.match_close(m, m.index('{', tm.start()))
+                t = t[:tm.start()] + ' ' * (close + 1 - tm.start()) + t[close + 1:]
+            t = vx.apply_cfg_blank(t, ['jit'])
+        except Exception as e:
+            o.verdict = 'undecided'; o.reason = 'cannot scan %s: %s' % (f, e)
+            return o
+        m = vx.mask_noncode(t)
+        for hm in re.finditer(r'\b(print|println)!\s*\(|\bstdout\s*\(', m):
+            line = t.count('\n', 0, hm.start()) + 1
+            rel = os.path.relpath(f, repo)
+            if rel == 'src/devices/serial.rs':
+                # must be inside set_control
+                fm = list(re.finditer(r'\bfn\s+(\w+)', m[:hm.start()]))
+                if fm and fm[-1].group(1) == 'set_control':
+                    continue
+            hits.append('%s:%d: %s' % (rel, line, t.split('\n')[line - 1].strip()[:100]))
+    o.time_s = 0.0
+    if hits:
+        o.verdict = 'refuted'
+        o.reason = 'the core writes to standard output outside SerialComms::set_control: ' + '; '.join(hits[:4])
+        o.detail = '\n'.join(hits)
+        o.replay = {'confirmed_on_real_code': True, 'kind': 'source locations (the scan is of the real sources)', 'locations': hits}
+    else:
+        o.verdict = 'discharged'
+    o.repo = '%d core source files scanned' % n_files
+    return o
